@@ -63,23 +63,24 @@ type Task struct {
 
 // Sched is one run's scheduler.
 type Sched struct {
-	mu        sync.Mutex
-	tasks     map[uint64]*Task // by goroutine id
-	order     []*Task          // all tasks ever created (deterministic order of creation is NOT assumed; sorted by name on use)
-	rootGID   uint64
-	wakeRoot  chan struct{}
-	aborting  atomic.Bool
-	locks     map[uintptr]*lockState
-	anon      map[string]int
-	ch        Chooser
-	Steps     int
-	last      *Task
-	Trace     func(string) // optional: receives one line per scheduling decision
-	SigHash   uint64       // running hash of (task, kind, site) decisions
-	LockYield bool         // park at every lock acquisition (true) or only when contended (false)
-	HeldYield bool         // park right after every uncontended acquisition too, i.e. inside the critical section
-	StayNum   int          // stay-bias: with probability StayNum/StayDen keep running the last task if enabled
-	StayDen   int
+	mu          sync.Mutex
+	tasks       map[uint64]*Task // by goroutine id
+	order       []*Task          // all tasks ever created (deterministic order of creation is NOT assumed; sorted by name on use)
+	rootGID     uint64
+	wakeRoot    chan struct{}
+	aborting    atomic.Bool
+	locks       map[uintptr]*lockState
+	anon        map[string]int
+	ch          Chooser
+	Steps       int
+	last        *Task
+	Trace       func(string) // optional: receives one line per scheduling decision
+	SigHash     uint64       // running hash of (task, kind, site) decisions
+	LockYield   bool         // park at every lock acquisition (true) or only when contended (false)
+	UnlockYield bool         // park right after every release (exposes lock scopes that end too early)
+	HeldYield   bool         // park right after every uncontended acquisition too, i.e. inside the critical section
+	StayNum     int          // stay-bias: with probability StayNum/StayDen keep running the last task if enabled
+	StayDen     int
 	// PCT-like priorities (optional): if non-nil, the enabled task with highest priority runs.
 	Prio     map[string]int
 	Suppress func() bool // optional: true = caller is in a context where parking is forbidden
